@@ -101,7 +101,7 @@ func init() {
 		Run:      func(sc any, tr *kit.Trace) *kit.Result { return runC09(sc.(*C09Scenario), tr) },
 		Shrink:   shrinkC09,
 		PerChunk: 2,
-		Quick:    32,
+		Quick:    28,
 		Thorough: 4000,
 	})
 }
@@ -188,7 +188,7 @@ func genC09(r *kit.RNG, tier string) *C09Scenario {
 			break
 		}
 		k := r.Intn(nkeys)
-		switch r.Intn(10) {
+		switch r.Intn(12) {
 		case 0, 1: // add a key
 			if !rev[k] {
 				pub[k] = true
@@ -212,7 +212,7 @@ func genC09(r *kit.RNG, tier string) *C09Scenario {
 		case 3: // remove a key
 			delete(pub, k)
 			snapshot(at, "", signers)
-		case 4, 5: // revoke a key: published with REVOKE, self-signed or not, co-signed or not
+		case 4, 5, 10, 11: // revoke a key: published with REVOKE, self-signed or not, co-signed or not
 			if pub[k] || r.Chance(0.3) {
 				rev[k] = true
 				delete(pub, k)
@@ -225,7 +225,7 @@ func genC09(r *kit.RNG, tier string) *C09Scenario {
 					sg = append(sg, k)
 				}
 				snapshot(at, "", sg)
-				if r.Chance(0.3) && len(sc.DiskEvents) == 0 {
+				if r.Chance(0.4) && len(sc.DiskEvents) == 0 {
 					// the directory is read-only while the revocation is first seen: neither
 					// record of it can be persisted
 					sc.DiskEvents = append(sc.DiskEvents, C09DiskEvent{AtMin: at - 30, Kind: "ro-on"},
@@ -293,7 +293,7 @@ func genC09(r *kit.RNG, tier string) *C09Scenario {
 		sc.Enumerate = 4
 		sc.EnumAll = true
 	} else {
-		sc.Enumerate = 1
+		sc.Enumerate = 2
 	}
 	return sc
 }
@@ -434,6 +434,11 @@ type c09MKey struct {
 	band bool
 	// removedAfterHoldDown: dropped after 90 d missing (bookkeeping, not security).
 	removed bool
+	// confirmed: the key took part in a fully authenticated refresh while tracked, so
+	// its state has been (or can have been) persisted. A key seeded from configuration
+	// that never saw an authenticated refresh exists only in that incarnation's memory;
+	// the lower bound does not apply to it after a restart with another configuration.
+	confirmed bool
 }
 
 type c09Model struct {
@@ -537,6 +542,9 @@ func (m *c09Model) refresh(p C09Pub, now time.Duration, cfg []int) string {
 	for k := range m.keys {
 		mk := &m.keys[k]
 		mk.band = false
+		if mk.st != mStart {
+			mk.confirmed = true
+		}
 		published := in(p.Keys, k)
 		switch mk.st {
 		case mStart:
@@ -596,6 +604,7 @@ type c09Run struct {
 	faulty     bool // a fault has fired or a disk event has been active: relaxed comparison
 	ro, tombUn bool
 	stateOps   []int // op-log indexes at which a state-changing refresh started persisting
+	revOps     []int // same, for refreshes that accepted a revocation
 	curCfg     []int
 }
 
@@ -720,9 +729,31 @@ func (x *c09Run) check(now time.Duration, what string) {
 	// lower bound, fault-free only: every key the model trusts is live
 	if !x.faulty {
 		for k, mk := range x.model.keys {
-			if (mk.st == mValid || mk.st == mMissing) && !inLive[k] && !mk.optional && !mk.band {
+			inCfg := false
+			for _, c := range x.curCfg {
+				if c == k {
+					inCfg = true
+				}
+			}
+			if (mk.st == mValid || mk.st == mMissing) && !inLive[k] && !mk.optional && !mk.band && (mk.confirmed || inCfg) {
 				x.res.Fail("C09/trusted-key-dropped", "%v %s: key #%d should be trusted (RFC 5011 state %v since %v) but the live set is %v", now, what, k, mk.st, mk.since, live)
 				return
+			}
+		}
+	}
+	// A configuration-seeded key that never saw an authenticated refresh and is not in the
+	// current configuration was never persisted: follow the implementation.
+	for k := range x.model.keys {
+		mk := &x.model.keys[k]
+		if (mk.st == mValid || mk.st == mMissing) && !mk.confirmed && !inLive[k] {
+			inCfg := false
+			for _, c := range x.curCfg {
+				if c == k {
+					inCfg = true
+				}
+			}
+			if !inCfg {
+				mk.st = mStart
 			}
 		}
 	}
@@ -852,6 +883,9 @@ func (x *c09Run) execute() {
 			if fmt.Sprint(x.model.keys) != before {
 				x.res.Nontrivial = true
 				x.stateOps = append(x.stateOps, x.disk.Ops())
+				if len(newlyRevoked) > 0 {
+					x.revOps = append(x.revOps, x.disk.Ops())
+				}
 			}
 			x.res.Probes["refresh:"+strings.SplitN(label, ":", 2)[0]]++
 			for _, l := range strings.Split(strings.SplitN(label+":", ":", 3)[1], ",") {
@@ -937,15 +971,33 @@ func runC09(sc *C09Scenario, tr *kit.Trace) *kit.Result {
 	// Fault enumeration: every disk operation of up to Enumerate state-changing
 	// refreshes, once per error kind and once per crash-persistence choice.
 	log := x.disk.Log
-	picked := x.stateOps
+	// Refreshes that accepted a revocation first (that is where the two state files
+	// must agree), then the other state-changing ones spread over the history.
+	picked := append([]int(nil), x.revOps...)
 	if len(picked) > sc.Enumerate {
-		// spread over the history deterministically
-		stride := len(picked) / sc.Enumerate
-		var p []int
-		for i := 0; i < sc.Enumerate; i++ {
-			p = append(p, picked[i*stride])
+		picked = picked[:sc.Enumerate]
+	}
+	var others []int
+	for _, o := range x.stateOps {
+		isRev := false
+		for _, r := range x.revOps {
+			if r == o {
+				isRev = true
+			}
 		}
-		picked = p
+		if !isRev {
+			others = append(others, o)
+		}
+	}
+	if room := sc.Enumerate - len(picked); room > 0 && len(others) > 0 {
+		if len(others) > room {
+			stride := len(others) / room
+			for i := 0; i < room; i++ {
+				picked = append(picked, others[i*stride])
+			}
+		} else {
+			picked = append(picked, others...)
+		}
 	}
 	kinds := []simdisk.Fault{{Kind: "eio"}, {Kind: "enospc"}, {Kind: "short"}, {Kind: "syncfail"}, {Kind: "renamefail"},
 		{Kind: "crash", Persist: "lose"}, {Kind: "crash", Persist: "keep"}, {Kind: "crash", Persist: "torn"}}
